@@ -247,6 +247,32 @@ def w_objects(arg):
             rec.finding('object', 'cleartext-text', case, 'text differs after reload: %r' % (a.message[-30:],))
         if [list(x) for x in a.ascii_headers.items() if x[0] != 'Hash'] != headers and label != 'SIGNED MESSAGE':
             rec.finding('object', 'headers-after-load', case, '%r != %r' % (list(a.ascii_headers.items()), headers))
+        # one character of the base64 body or checksum line replaced by a character outside printable ASCII (high bit flipped, control
+        # character): the text must not be taken for something else and loaded silently
+        if label != 'SIGNED MESSAGE':
+            lines_ = text.split('\n')
+            blank = lines_.index('')
+            start = sum(len(l) + 1 for l in lines_[:blank + 1])
+            end = text.index('\n-----END')
+            for k in range(3):
+                pos = start + (c['i'] * 31 + k * 97) % max(1, end - start)
+                if text[pos] in '\n=':
+                    continue
+                for alt in (chr(ord(text[pos]) | 0x80), '\x0c', '\x00')[k:k + 1]:
+                    bad = text[:pos] + alt + text[pos + 1:]
+                    inp2 = bad.encode('latin-1') if c['form'] in ('bytes', 'bytearray') else bad
+                    try:
+                        with warnings.catch_warnings(record=True) as w2:
+                            warnings.simplefilter('always')
+                            r2 = cls.from_blob(inp2)
+                        r2 = r2[0] if isinstance(r2, tuple) else r2
+                        reported = any('crc' in str(x.message).lower() for x in w2)
+                        same = bytes(r2) == data
+                    except Exception:   # noqa
+                        reported, same = True, False
+                    rec.note('non-ascii-corruption-tried')
+                    if not reported and not same:
+                        rec.finding('corruption', 'non-ascii-character-not-reported/' + label, case, 'character %r at %d: loaded silently as something else' % (alt, pos))
         # a block of another kind must be rejected
         others = {'PUBLIC KEY BLOCK': [pgpy.PGPMessage, pgpy.PGPSignature], 'PRIVATE KEY BLOCK': [pgpy.PGPMessage, pgpy.PGPSignature],
                   'MESSAGE': [pgpy.PGPKey, pgpy.PGPSignature], 'SIGNATURE': [pgpy.PGPKey, pgpy.PGPMessage], 'SIGNED MESSAGE': [pgpy.PGPKey]}[label]
@@ -339,18 +365,21 @@ def w_corrupt(arg):
         if pi % nparts != part:
             continue
         orig = text[pos]
+        # another base64 character (two ways), and - at every fifth position - a character outside printable ASCII (a flipped high bit, a control character)
         for alt in (B64[(B64.index(orig) + 1) % 64], B64[(B64.index(orig) ^ 0x20) % 64]):
             if alt == orig:
                 continue
             bad = text[:pos] + alt + text[pos + 1:]
+            if ord(alt) > 126 and pi % 10 == 0:
+                bad = bad.encode('latin-1')       # the same corruption in a bytes input
             case = {'kind': 'corrupt', 'n': n, 'fill': kind, 'pos': pos, 'alt': alt}
             # is the payload actually different? (the last body character may carry unused bits)
             try:
-                rb = armor.read_blocks(bad)[0]
+                rb = armor.read_blocks(bad if isinstance(bad, str) else bad.decode('latin-1'))[0]
                 changed = rb.data != data or where == 'crc'
             except wire.WireError:
                 changed = True
-            rec.case(('corrupt', n, kind, pos, alt), True, ('corrupt/' + where, 'corrupt/changed=%s' % changed),
+            rec.case(('corrupt', n, kind, pos, alt), True, ('corrupt/' + where, 'corrupt/changed=%s' % changed, 'corrupt/char=%s' % ('base64' if alt in B64 else 'other')),
                      {'payload_len': n, 'position': pos, 'where': where, 'char': orig + '->' + alt})
             try:
                 with warnings.catch_warnings(record=True) as w:
